@@ -24,6 +24,7 @@ RULE = (
     "None, 3, 'x', a tuple and an object of another geometry type is False without raising (Point, Line, Plane, "
     "ConvexPolygon, ConvexPolyhedron only). non-trivial = family with >= 3 different representations; distinct = "
     "distinct family."
+    ' Segments and HalfLines are also rebuilt from their parametric() tuples and, for Segments, from item access s[1], s[0].'
 )
 ASSUMPTIONS = [
     "Segment/HalfLine/Vector == against foreign types is excluded exactly as the statement excludes it",
